@@ -6,17 +6,11 @@ from .. import pm
 from ..pm import U
 from . import common as C
 
-TECHNIQUE = "static analysis: decoder branch tables extracted from the AST and compared with the README's documented operand codes; literal snapping constants and window symmetry; key agreement of the TP/LT merge; index-bound (interval) check of block indexing with guard recognition; emission path (every entry inserted, dump covers the list inserted into)"
+TECHNIQUE = (
+    "static analysis: constant folding of the two pure decoder functions over the finite table of the README's documented operand codes; literal snapping constants and window symmetry; key agreement of the TP/LT merge; index-bound (interval) check of block indexing with guard recognition; emission path (every entry inserted, dump covers the list inserted into)"
+)
 EXPLANATION = (
-    "R1: the operand codes each _create_db_operand_* decoder accepts and the fields it emits equal the README's "
-    "'Benchmark import' bullet lists (x86: r, x/y/z, i, m[b o i s]; AArch64: w x b h s d q, v[bhsd] default d, i, "
-    "m[b o i s r p]). R2: throughput candidates are 1/n for n in range(1, 11); the acceptance window is the "
-    "symmetric pair 0.95/1.05 in both modes; an accepted latency is rounded to the nearest integer, an accepted "
-    "throughput is the matching reciprocal; out of window returns None. R3: TP and LT lines of one ibench form "
-    "map to the same key and update the same entry object. R4: every index i + k into the asmbench lines stays "
-    "below the bound the loop guarantees or is guarded; the malformed-block path breaks (earlier entries kept). "
-    "R5: every parsed entry is passed to set_instruction_entry and the dump covers the list entries were "
-    "appended to."
+    "R1: both _create_db_operand_* decoders are constant-folded (osaca_sa/consteval.py, an interpreter over the AST for the pure subset they use; nothing of the repository is executed) over the finite table of documented operand codes - every memory-flag subset in both orders included - and a few undocumented letters; the operand each code yields must equal the README's 'Benchmark import' bullet lists (x86: r, x/y/z, i, m[b o i s]; AArch64: w x b h s d q, v[bhsd] default d, i, m[b o i s r p]). R2: throughput candidates are 1/n for n in range(1, 11); the acceptance window is the symmetric pair 0.95/1.05 in both modes; an accepted latency is rounded to the nearest integer, an accepted throughput is the matching reciprocal; out of window returns None. R3: TP and LT lines of one ibench form map to the same key and update the same entry object. R4: every index i + k into the asmbench lines stays below the bound the loop guarantees or is guarded; the malformed-block path breaks (earlier entries kept). R5: every parsed entry is passed to set_instruction_entry and the dump covers the list entries were appended to."
 )
 NOT_DECIDED = "Numeric behaviour exactly at the window boundaries and the YAML round trip of the emitted model."
 ASSUMPTIONS = ["README.rst section 'Benchmark import' is the documented naming convention"]
@@ -51,69 +45,74 @@ def _r1(ctx):
     ctx.check(doc_x86 >= {"r", "x", "y", "z", "i", "m", "b", "o", "s"} and doc_a64 >= {"w", "x", "b", "h", "s", "d", "q", "v", "i", "m", "o", "r", "p"},
               "R1", "README lists the operand codes", "README.rst", "README codes: x86 %s, AArch64 %s" % (sorted(doc_x86), sorted(doc_a64)),
               "README.rst", "documented codes")
-    # ---- x86
-    f = ctx.func("db_interface._create_db_operand_x86")
-    op = f.params()[0]
-    br = dict(_branches(f))
-    conds = list(br)
+    # ---- both decoders are folded over the finite table of documented codes (consteval: the repository code is not run)
+    from itertools import combinations
+    from .. import consteval
 
-    def has(cond_opts, check, what):
-        for c in cond_opts:
-            if c in br and check(br[c]):
-                ctx.ok("R1", "x86: %s" % what, f.where())
-                return
-        ctx.bad("R1", "x86: %s" % what, f.where(), "the x86 decoder has no branch `%s` producing %s (branches: %s)" % (
-            " / ".join(cond_opts), what, conds), f.qname, "x86 " + what)
-    has(["%s == 'r'" % op, "%s.startswith('r')" % op], lambda v: {k: U(x) for k, x in (_dict_of(v) or {}).items()} == {
-        "class": "'register'", "name": "'gpr'"}, "'r' -> general purpose register")
-    has(["%s in 'xyz'" % op, "%s in ('x', 'y', 'z')" % op, "%s in ['x', 'y', 'z']" % op], lambda v: {k: U(x) for k, x in (_dict_of(v) or {}).items()} == {
-        "class": "'register'", "name": "%s + 'mm'" % op}, "'x'/'y'/'z' -> xmm/ymm/zmm")
-    has(["%s == 'i'" % op], lambda v: {k: U(x) for k, x in (_dict_of(v) or {}).items()} == {"class": "'immediate'", "imd": "'int'"},
-        "'i' -> integer immediate")
-    mem_x86 = {"class": "'memory'", "base": "'gpr' if 'b' in %s else None" % op, "offset": "'imd' if 'o' in %s else None" % op,
-               "index": "'gpr' if 'i' in %s else None" % op, "scale": "8 if 's' in %s else 1" % op}
-    has(["%s.startswith('m')" % op], lambda v: {k: U(x) for k, x in (_dict_of(v) or {}).items()} == mem_x86,
-        "'m' + b/o/i/s -> memory with base/offset/index/scale")
-    ctx.check(any(isinstance(n, ast.Raise) for n in ast.walk(f.node)), "R1", "x86: unknown codes are rejected", f.where(),
-              "unknown operand codes are no longer rejected", f.qname, "x86 reject")
-    if "%s.startswith('r')" % op in br:
-        ctx.note("R1: the x86 decoder accepts any code starting with 'r' as a general purpose register (documented: 'r')")
-    # ---- AArch64
-    g = ctx.func("db_interface._create_db_operand_aarch64")
-    op = g.params()[0]
-    br = dict(_branches(g))
-    conds = list(br)
+    def mem_codes(letters):
+        out = []
+        for k in range(len(letters) + 1):
+            for sub in combinations(letters, k):
+                out.append("m" + "".join(sub))
+                if k > 1:
+                    out.append("m" + "".join(reversed(sub)))
+        return out
 
-    def has2(cond_opts, check, what):
-        for c in cond_opts:
-            if c in br and check(br[c]):
-                ctx.ok("R1", "AArch64: %s" % what, g.where())
-                return
-        ctx.bad("R1", "AArch64: %s" % what, g.where(), "the AArch64 decoder has no branch `%s` producing %s (branches: %s)" % (
-            " / ".join(cond_opts), what, conds), g.qname, "aarch64 " + what)
-    has2(["%s == 'i'" % op], lambda v: {k: U(x) for k, x in (_dict_of(v) or {}).items()} == {"class": "'immediate'", "imd": "'int'"},
-         "'i' -> integer immediate")
-    scal = [c for c in br if re.fullmatch(r"%s in '([a-z]+)'" % op, c)]
-    ok = False
-    for c in scal:
-        letters = set(re.fullmatch(r"%s in '([a-z]+)'" % op, c).group(1))
-        d = {k: U(x) for k, x in (_dict_of(br[c]) or {}).items()}
-        if letters == set("wxbhsdq") and d == {"class": "'register'", "prefix": op}:
-            ok = True
-    ctx.check(ok, "R1", "AArch64: w/x/b/h/s/d/q -> register with that prefix", g.where(),
-              "scalar register codes are not exactly w x b h s d q with prefix = code (branches: %s)" % conds, g.qname, "aarch64 scalar")
-    if ok:
-        ctx.note("R1: `operand in 'wxbhsdq'` is a substring test: it also accepts '' and e.g. 'wx' (not documented codes)")
-    vec = {"class": "'register'", "prefix": "'v'", "shape": "%s[1:2] if %s[1:2] != '' else 'd'" % (op, op)}
-    has2(["%s.startswith('v')" % op], lambda v: {k: U(x) for k, x in (_dict_of(v) or {}).items()} == vec,
-         "'v' + lane letter -> vector register, default shape d")
-    mem_a = {"class": "'memory'", "base": "'x' if 'b' in %s else None" % op, "offset": "'imd' if 'o' in %s else None" % op,
-             "index": "'gpr' if 'i' in %s else None" % op, "scale": "8 if 's' in %s else 1" % op,
-             "pre_indexed": "True if 'r' in %s else False" % op, "post_indexed": "True if 'p' in %s else False" % op}
-    has2(["%s.startswith('m')" % op], lambda v: {k: U(x) for k, x in (_dict_of(v) or {}).items()} == mem_a,
-         "'m' + b/o/i/s/r/p -> memory with base/offset/index/scale/pre/post-index")
-    ctx.check(any(isinstance(n, ast.Raise) for n in ast.walk(g.node)), "R1", "AArch64: unknown codes are rejected", g.where(),
-              "unknown operand codes are no longer rejected", g.qname, "aarch64 reject")
+    def want_x86(c):
+        if c == "r":
+            return {"class": "register", "name": "gpr"}
+        if c in ("x", "y", "z"):
+            return {"class": "register", "name": c + "mm"}
+        if c == "i":
+            return {"class": "immediate", "imd": "int"}
+        if c[0] == "m":
+            return {"class": "memory", "base": "gpr" if "b" in c[1:] else None, "offset": "imd" if "o" in c[1:] else None,
+                    "index": "gpr" if "i" in c[1:] else None, "scale": 8 if "s" in c[1:] else 1}
+
+    def want_a64(c):
+        if c in tuple("wxbhsdq"):
+            return {"class": "register", "prefix": c}
+        if c[0] == "v":
+            return {"class": "register", "prefix": "v", "shape": c[1:2] or "d"}
+        if c == "i":
+            return {"class": "immediate", "imd": "int"}
+        if c[0] == "m":
+            return {"class": "memory", "base": "x" if "b" in c[1:] else None, "offset": "imd" if "o" in c[1:] else None,
+                    "index": "gpr" if "i" in c[1:] else None, "scale": 8 if "s" in c[1:] else 1,
+                    "pre_indexed": "r" in c[1:], "post_indexed": "p" in c[1:]}
+
+    tables = (
+        ("x86", "db_interface._create_db_operand_x86", ["r", "x", "y", "z", "i"] + mem_codes("bois"), want_x86, ["k", "a", "q", "w", "v", "d"]),
+        ("AArch64", "db_interface._create_db_operand_aarch64", list("wxbhsdq") + ["v", "vb", "vh", "vs", "vd", "i"] + mem_codes("boisrp"),
+         want_a64, ["k", "r", "y", "z", "a", "g"]),
+    )
+    n_codes = 0
+    for isa, q, codes, want, unknown in tables:
+        g = ctx.func(q)
+        for c in codes:
+            n_codes += 1
+            try:
+                got = consteval.call(g.node, c)
+            except consteval.Unsupported as x:
+                ctx.broken("R1: %s uses a construct the constant folder does not model (%s)" % (q, x))
+            exp = want(c)
+            ok = got[0] == "return" and isinstance(got[1], dict) and got[1] == exp and all(
+                type(got[1][k]) is type(exp[k]) for k in exp)
+            ctx.check(ok, "R1", "%s code '%s' -> %s" % (isa, c, exp), g.where(),
+                      "the %s decoder turns the documented operand code '%s' into %s; the naming convention (README, 'Benchmark "
+                      "import') says %s" % (isa, c, got[1] if got[0] == "return" else "an exception (%s)" % got[1], exp), g.qname,
+                      "%s code %s" % (isa, c))
+        for c in unknown:
+            try:
+                got = consteval.call(g.node, c)
+            except consteval.Unsupported as x:
+                ctx.broken("R1: %s uses a construct the constant folder does not model (%s)" % (q, x))
+            ctx.check(got[0] == "raise", "R1", "%s: undocumented code '%s' is rejected" % (isa, c), g.where(),
+                      "the %s decoder accepts the undocumented operand code '%s' as %s instead of rejecting it" % (isa, c, got[1]),
+                      g.qname, "%s reject %s" % (isa, c))
+    ctx.floor("R1", "documented operand codes folded through the decoders", n_codes, 100)
+    ctx.note("R1: codes outside the documented vocabulary that the decoders also accept (e.g. '' or 'wx' through the substring test "
+             "`operand in 'wxbhsdq'`, any x86 code starting with 'r') are not part of the property")
     # dispatch
     d = ctx.func("db_interface._create_db_operand")
     dd = dict(_branches(d))
